@@ -460,8 +460,8 @@ class CtxVar:
         self.vc.emit('var.reset', self.name)
 
 
-@harness('X4', targets='kopf._core.actions.execution.invoke_handler', props=['C02', 'C11', 'C04', 'C09', 'C10', 'C15', 'C17', 'C18', 'C20', 'C08', 'C14'],
-         prop_clauses={'C20': ['invoked_once_as_given', 'exceptions_propagate_unchanged'], 'C08': ['adjusted_cause_used', 'result_returned'], 'C14': ['invoked_once_as_given']},
+@harness('X4', targets='kopf._core.actions.execution.invoke_handler', props=['C02', 'C11', 'C04', 'C09', 'C10', 'C15', 'C17', 'C18', 'C20', 'C08', 'C14', 'C03', 'C16'],
+         prop_clauses={'C20': ['invoked_once_as_given', 'exceptions_propagate_unchanged'], 'C08': ['adjusted_cause_used', 'result_returned'], 'C14': ['invoked_once_as_given'], 'C03': ['context_during_call', 'context_at_extra_exit'], 'C16': ['context_during_call', 'context_at_extra_exit']},
          clauses=['adjusted_cause_used', 'context_during_call', 'context_at_extra_exit', 'context_restored', 'invoked_once_as_given',
                   'inside_extra_context', 'result_returned', 'exceptions_propagate_unchanged'],
          canaries=['canary.never_raises', 'canary.cause_never_adjusted'],
@@ -469,7 +469,7 @@ class CtxVar:
                   'invocation.invoke by contract: calls fn once with kwargs | kwargsrc\'s kwargs; returns its result or raises what it raises',
                   'invocation.context (real code, inlined) over contextvars by contract (CtxVar)',
                   'extra_context(): an async context manager; its exit may raise (subhandling_context: HandlerChildrenRetry, H8c)'],
-         clause_props={'adjusted_cause_used': ['C04', 'C08'], 'invoked_once_as_given': ['C11', 'C02', 'C20', 'C14'], 'context_during_call': ['C02'], 'context_at_extra_exit': ['C02'], 'context_restored': ['C02'], 'inside_extra_context': ['C02'], 'result_returned': ['C02', 'C11', 'C08'], 'exceptions_propagate_unchanged': ['C11', 'C02', 'C20']})
+         clause_props={'adjusted_cause_used': ['C04', 'C08'], 'invoked_once_as_given': ['C11', 'C02', 'C20', 'C14'], 'context_during_call': ['C02', 'C03', 'C16'], 'context_at_extra_exit': ['C02', 'C03', 'C16'], 'context_restored': ['C02'], 'inside_extra_context': ['C02'], 'result_returned': ['C02', 'C11', 'C08'], 'exceptions_propagate_unchanged': ['C11', 'C02', 'C20']})
 def X4(vc):
     """
     execution.invoke_handler:
